@@ -1,6 +1,6 @@
 #!/usr/bin/env python3
 """manifest.py — writes MANIFEST.json from the registry (run after adding a property)."""
-import json, os, sys
+import json, os, sys, glob
 sys.path.insert(0, os.path.dirname(os.path.abspath(__file__)))
 sys.path.insert(0, os.path.join(os.path.dirname(os.path.abspath(__file__)), '..', 'gen'))
 import registry
@@ -12,7 +12,7 @@ checks = []
 na = []
 for p in props:
     pid = p['id']
-    if pid in registry.PROPS and os.path.exists(os.path.join(VERIF, 'coq', 'Props', pid + '.v')) and pid in LEVEL:
+    if pid in registry.PROPS and (os.path.exists(os.path.join(VERIF, 'coq', 'Props', pid + '.v')) or glob.glob(os.path.join(VERIF, 'coq', 'Props', pid + '_*.v'))) and pid in LEVEL:
         lv = LEVEL[pid]
         checks.append({
             'property_id': pid,
